@@ -14,7 +14,7 @@ import (
 func init() { Registry["C07"] = checkC07 }
 
 func checkC07(p *core.Prog, r *core.Report) {
-	r.Explanation = "Decides structural necessary conditions of restart recovery: (R1) the 64-byte log record: AofLock.Encode and Decode are inverse on every field byte, UpdateAofId rewrites exactly the id positions Encode uses, and Aof.lockAcked's direct reads (DbId, LockKey) hit the positions of that layout; (R2) every change of a persisted hold is logged: on every path of Lock/UnLock/doTimeOut/doExpried/DoAckLock/cancelWaitLock that removes a hold, changes its depth or updates its terms, the path tested the hold as not persisted, or pushes the matching log record before the shard mutex is released; (R3) the lazy persistence hook (AddExpried / AddMillisecondExpried) pushes only when the hold is not yet persisted and persistable, and AddExpried pushes one LOCK record per depth level (replay rebuilds depth from the number of records); (R4) the value blob of a record is written right after its record iff the record announces it (Aof.PushLock) and read before any skip (LoadAofFile); (R5) replayed records are marked FROM_AOF before they reach the engine, and the push functions return before logging a replayed command (no re-logging); (R6) the three places that interpret a record's remaining lifetime dispatch on the same unit flags. (R6) every list of log files built from FindAofFiles (start-up load, compaction, transfer) puts the snapshot before the append files - the list is the replay order. NOT decided: numeric round-trip of remaining lifetime, rotation across files, equality of the recovered snapshot."
+	r.Explanation = "Decides structural necessary conditions of restart recovery: (R1) the 64-byte log record: AofLock.Encode and Decode are inverse on every field byte, UpdateAofId rewrites exactly the id positions Encode uses, and Aof.lockAcked's direct reads (DbId, LockKey) hit the positions of that layout; (R2) every change of a persisted hold is logged: on every path of Lock/UnLock/doTimeOut/doExpried/DoAckLock/cancelWaitLock that removes a hold, changes its depth or updates its terms, the path tested the hold as not persisted, or pushes the matching log record before the shard mutex is released; (R3) the lazy persistence hook (AddExpried / AddMillisecondExpried) pushes only when the hold is not yet persisted and persistable, and AddExpried pushes one LOCK record per depth level (replay rebuilds depth from the number of records); (R4) the value blob of a record is written right after its record iff the record announces it (Aof.PushLock) and read before any skip (LoadAofFile); (R5) replayed records are marked FROM_AOF before they reach the engine, and the push functions return before logging a replayed command (no re-logging); (R6) the three places that interpret a record's remaining lifetime dispatch on the same unit flags. (R6) every list of log files built from FindAofFiles (start-up load, compaction, transfer) puts the snapshot before the append files - the list is the replay order. (R7) UnLock clears a hold's persisted mark only on paths that remove the hold (a partial release keeps it). NOT decided: numeric round-trip of remaining lifetime, rotation across files, equality of the recovered snapshot."
 	r.Assumptions = []string{"Go type checker and go/ssa are correct for /repo", "the layout extractor interprets all byte stores of the record codec (uninterpreted statements are reported)"}
 	c07R1(p, r)
 	c07R2(p, r)
@@ -23,6 +23,7 @@ func checkC07(p *core.Prog, r *core.Report) {
 	loadAlignRule(p, r, "C07/R4b")
 	c07R5(p, r)
 	logFileOrderRule(p, r, "C07/R6")
+	c07R7(p, r)
 }
 
 func fieldLoadPred(fn *ssa.Function, typ, field string) func(ssa.Value) bool {
@@ -416,4 +417,62 @@ func blockInLoop(b *ssa.BasicBlock) bool {
 		stack = append(stack, c.Succs...)
 	}
 	return false
+}
+
+// c07R7: Lock.isAof says "a LOCK record of this hold is in the log". It gates
+// both directions of persistence: a release is logged only for holds with the
+// mark (R2), and the lazy persistence hook writes LOCK records for holds
+// without it (R3). A hold that stays alive after a partial (one re-entrancy
+// level) release has to keep the mark: clearing it makes the final release go
+// unlogged (the hold is resurrected by a restart) or makes the hook log the
+// hold again (restored one level too deep). So in UnLock the mark is cleared
+// only on paths that also remove the hold.
+func c07R7(p *core.Prog, r *core.Report) {
+	const rule = "C07/R7"
+	r.Rule(rule, "UnLock clears a hold's persisted mark (isAof) only on paths that remove the hold; a partial release keeps it", 2)
+	fn := mustFunc(p, r, "server.(*LockDB).UnLock")
+	push := mustFunc(p, r, "server.(*LockManager).PushUnLockAof")
+	if fn == nil || push == nil {
+		return
+	}
+	n := 0
+	ex := core.NewExplorer(p, core.Hooks{
+		Inline: func(x *core.X, c *ssa.Function) bool { return c == push },
+		Instr: func(x *core.X) {
+			if cl, acq, ok := trackLocks(x); ok {
+				if cl == "shard" && !acq && x.Top() {
+					if h := x.Get("cleared"); h != "" {
+						n++
+						key := "server.(*LockDB).UnLock: persisted mark cleared"
+						if x.Get("removed") == h {
+							r.Hold(rule, key, x.Get("clearedpos"), "the hold is removed on this path")
+						} else {
+							r.Violate(rule, key, x.Get("clearedpos"), "the persisted mark of hold "+stable(h)+" is cleared although the hold stays alive on this path (partial release): its final release is then not logged, or the persistence hook logs the hold again - a restart restores a released hold or one level too many", x.St.Trace)
+						}
+						x.Set("cleared", "")
+					}
+					x.Set("removed", "")
+				}
+				return
+			}
+			if st, ok := x.Ins.(*ssa.Store); ok {
+				if k, ok := storeKey(st.Addr); ok && k == fk("server.Lock", "isAof") && x.Canon(st.Val).S == "false" {
+					h := core.Plain(strings.TrimSuffix(strings.TrimPrefix(x.Canon(st.Addr).S, "&"), ".isAof"))
+					x.Set("cleared", h)
+					x.Set("clearedpos", x.Pos())
+				}
+				return
+			}
+			if x.Top() && calleeIs(x.Ins, "LockManager", "RemoveLock") {
+				x.Set("removed", core.Plain(argCanon(x, x.Ins, 1)))
+			}
+		},
+	})
+	ex.Run(fn, nil)
+	if ex.Imprecise != "" {
+		r.Fail("C07/R7: %s", ex.Imprecise)
+	}
+	if n == 0 {
+		r.Fail("C07/R7: no path of UnLock clears the persisted mark")
+	}
 }
